@@ -25,6 +25,7 @@ def run(tier, replay=None):
     inc = [x for x in rw[1] if str(x.get("meta", {}).get("rewrite", "")).startswith("inc")]
     rest = [x for x in rw[1] if not str(x.get("meta", {}).get("rewrite", "")).startswith("inc")]
     fams.append((rw[0], inc + (rest[seed % 4::4] if tier == "quick" else rest), rw[2]))
+    fams.append(props.cross_sample(tier, seed))
     vs = semcheck.run_families(ck, fams, nontrivial)
     semcheck.binding_selftest(ck, vs)
     # translation validation + instruction-level trace validation on a slice of the same sessions (CalcVM.tla)
@@ -33,7 +34,8 @@ def run(tier, replay=None):
     n, agree, viol = vmcheck.validate(ck, sl, "CalcVM: real bytecode on the intended VM = CalcSem; real instruction traces followed")
     for desc, case, kind in viol:
         ck.violation(desc, case)
-    ck.cov["rule"] = ("sessions = enumerated expression x embedding-context products plus seeded random typed sessions; distinct by AST digest; "
+    ck.cov["rule"] = ("sessions = enumerated expression x embedding-context products plus seeded random typed sessions, the compiler's special-cased code shapes, and a stable sample of the "
+                      "session families of C02 C03 C04 C09 C10 C17 C19 (25 per property quick, 400 thorough); distinct by AST digest; "
                       "non-trivial = some statement uses >= 3 distinct node kinds and the session is specified (not Unspecified) to its end")
     ck.assumptions += ["CalcSem.tla as evaluated by TLC is the oracle", "CalcVM.tla is the intended machine for the real compiler's bytecode (translation validation) and for the real VM's instruction trace", "values outside the model (|int| >= 2^30, non-dyadic floats) are Unspecified and only checked for no-crash"]
     return ck.finish()
